@@ -269,12 +269,34 @@ def run_char_task(task):
         res["outcome"], res["detail"] = "inconclusive", str(e)
     except (Unsupported, PathLimit) as e:
         res["outcome"], res["detail"] = "inconclusive", f"{type(e).__name__}: {e}"
+        if isinstance(e, Unsupported) and res["cex"] is None:
+            _concrete_fallback(res, n, file_mode, what)
     except Exception as e:  # noqa
         import traceback
         res["outcome"], res["detail"] = "error", f"{type(e).__name__}: {e} {traceback.format_exc()[-800:]}"
     res["paths"] = stats.paths
     res["stats"] = stats.as_dict()
     return res
+
+
+FALLBACK_ALPHABET = "()aB;\n \t"
+
+
+def _concrete_fallback(res, n, file_mode, what):
+    """the library reached an operation the symbolic strings do not model: the task stays inconclusive (nothing is claimed for
+    all strings), but every string of its length over a small alphabet is still run concretely against the reference, so that
+    a wrong answer is reported as such instead of hiding behind the harness limitation"""
+    if n > 5:
+        return
+    for tup in itertools.product(FALLBACK_ALPHABET, repeat=n):
+        t = "".join(tup)
+        bad, a, b = disagree_concrete(t, file_mode, what)
+        if bad:
+            res["outcome"] = "violation"
+            res["cex"] = {"what": "token lists differ (concrete fallback: the library's code path is not modelled symbolically)",
+                          "text": t, "file_mode": file_mode, "kind": what, "library": str(a), "reference": str(b)}
+            return
+    res["detail"] += f"; concrete fallback: all {len(FALLBACK_ALPHABET) ** n} strings of length {n} over {FALLBACK_ALPHABET!r} agree"
 
 
 def _cex(ctx, res, vs, file_mode, what, desc, neg):
@@ -432,9 +454,11 @@ def _concrete_ref_tokens(t, fm):
 
 def main(tier: str) -> int:
     rep = runner.Report("C11", tier, "other")
-    errs = self_validate(runner.seed())
-    for e in errs:
-        rep.errors.append("self-validation: " + e)
+    try:
+        for e in self_validate(runner.seed()):
+            rep.errors.append("self-validation: " + e)
+    except (Exception, Unsupported, Inconclusive, PathLimit) as e:  # noqa -- harness error, but the run goes on
+        rep.errors.append(f"self-validation stopped: {type(e).__name__}: {e}")
     tasks = []
     names = list(CLASSES)
     nchar = 4 if tier == "quick" else 5
@@ -506,7 +530,11 @@ def main(tier: str) -> int:
     q = dict(agg)
     q["solver_seconds"] = round(solver_s, 2)
     # vacuity twin: a deliberately wrong reference (comments not stripped) must be refuted
-    tw = _twin()
+    try:
+        tw = _twin()
+    except (Exception, Unsupported, Inconclusive, PathLimit) as e:  # noqa
+        tw = False
+        rep.errors.append(f"vacuity twin stopped: {type(e).__name__}: {e}")
     if not tw:
         rep.twins_failed.append("vacuity twin (reference that keeps comments) was not refuted")
     rep.coverage.update({
